@@ -356,7 +356,9 @@ pub fn threads() -> usize {
 }
 
 fn minimise<S: Scenario>(s: &S, plan: &S::Plan, v: &Violation) -> (S::Plan, Violation, u64, u64) {
-    let oracle = v.oracle().to_string();
+    // a candidate is accepted only if exactly the same class still fires, so that minimisation
+    // can never turn one kind of failure into another (known findings are matched by class)
+    let class = v.class.clone();
     let mut best = plan.clone();
     let mut best_v = v.clone();
     let mut best_hash = 0;
@@ -371,7 +373,7 @@ fn minimise<S: Scenario>(s: &S, plan: &S::Plan, v: &Violation) -> (S::Plan, Viol
             execs += 1;
             let mut cx = Cx::new(false);
             if let RunResult::Violation(v2) = exec_guarded(s, &c, &mut cx) {
-                if v2.oracle() == oracle {
+                if v2.class == class {
                     best = c;
                     best_v = v2;
                     best_hash = cx.log_hash;
@@ -449,12 +451,13 @@ pub fn run_batch<S: Scenario>(s: &S, cfg: &BatchCfg) -> BatchOut {
     let stats = stats.into_inner().unwrap();
     let mut out_found = Vec::new();
     // minimise one representative per oracle (classes of the same oracle usually share a cause)
-    let mut seen_oracles = BTreeSet::new();
+    let mut seen_oracles: BTreeSet<String> = BTreeSet::new();
     let mut items: Vec<_> = found.into_inner().unwrap().into_values().collect();
     items.sort_by_key(|(run, _, _)| *run);
     for (run, v, plan) in items {
-        if !seen_oracles.insert(v.oracle().to_string()) && out_found.len() >= 1 {
-            continue;
+        let _ = &mut seen_oracles;
+        if out_found.len() >= 4 {
+            break;
         }
         let (min, min_v, hash, execs) = minimise(s, &plan, &v);
         out_found.push(Found {
